@@ -678,4 +678,227 @@ theorem inv_reachable {cfg : Cfg} {s : St} (h : Reachable cfg s) : Inv cfg s := 
   | init => exact inv_init cfg
   | step _ hs ih => exact inv_step ih hs
 
+
+/-! ### custom jobs and the cancel flag -/
+
+
+theorem unique_entry {l : List Fl} {k : Nat} {f y : Fl} (hu : (idxs l).count k = 1)
+    (hf : findFl k l = some f) (hy : y ∈ l) (hyk : y.idx = k) : y = f := by
+  induction l with
+  | nil => simp at hy
+  | cons a t ih =>
+    by_cases ha : a.idx = k
+    · have hfa : f = a := by simp [findFl, ha] at hf; exact hf.symm
+      have ht : (idxs t).count k = 0 := by
+        simp only [idxs, List.map_cons, List.count_cons, ha, beq_self_eq_true, ↓reduceIte] at hu
+        unfold idxs; omega
+      rcases List.mem_cons.mp hy with h | h
+      · rw [h, hfa]
+      · exfalso
+        have : 0 < (idxs t).count k := List.count_pos_iff.mpr (List.mem_map.mpr ⟨y, h, hyk⟩)
+        omega
+    · have ha' : (a.idx == k) = false := by simpa using ha
+      have hf' : findFl k t = some f := by simpa [findFl, List.find?_cons, ha'] using hf
+      have hu' : (idxs t).count k = 1 := by simpa [idxs, List.count_cons, ha'] using hu
+      rcases List.mem_cons.mp hy with h | h
+      · exact absurd (h ▸ hyk) ha
+      · exact ih hu' hf' h
+
+theorem mem_updFl {k : Nat} {g : Fl → Fl} {l : List Fl} {x : Fl} (h : x ∈ updFl k g l) :
+    (x ∈ l ∧ x.idx ≠ k) ∨ (∃ y ∈ l, y.idx = k ∧ x = g y) := by
+  unfold updFl at h
+  obtain ⟨y, hy, rfl⟩ := List.mem_map.mp h
+  by_cases hk : y.idx = k
+  · right; exact ⟨y, hy, hk, by simp [hk]⟩
+  · left; have : (y.idx == k) = false := by simpa using hk
+    simp only [this, Bool.false_eq_true, ↓reduceIte]; exact ⟨hy, hk⟩
+
+theorem mem_dropFl {k : Nat} {l : List Fl} {x : Fl} (h : x ∈ dropFl k l) : x ∈ l :=
+  (List.mem_filter.mp h).1
+
+/-- a custom job that called `start_job` when the flag was already set will not enter its operation -/
+structure InvC (cfg : Cfg) (s : St) : Prop where
+  entry : ∀ f ∈ s.inflight, f.lateC = true → (specOf cfg f.idx).custom = true →
+    f.pc ≠ .go ∧ (f.pc = .started → s.cancelled = true)
+  log : ∀ j ∈ s.ranLateC, (specOf cfg j).custom = false
+
+theorem invC_init (cfg : Cfg) : InvC cfg (init cfg) := by
+  constructor <;> simp [init]
+
+
+theorem invC_frame {cfg : Cfg} {s s' : St} (hC : InvC cfg s) (hin : s'.inflight = s.inflight)
+    (hlog : s'.ranLateC = s.ranLateC) (hmono : s.cancelled = true → s'.cancelled = true) : InvC cfg s' := by
+  constructor
+  · intro f hf hl hc
+    rw [hin] at hf
+    obtain ⟨h1, h2⟩ := hC.entry f hf hl hc
+    exact ⟨h1, fun hp => hmono (h2 hp)⟩
+  · rw [hlog]; exact hC.log
+
+theorem invC_upd {cfg : Cfg} {s s' : St} {k : Nat} {f : Fl} (hI : Inv cfg s) (hC : InvC cfg s)
+    (hf : findFl k s.inflight = some f) (g : Fl → Fl)
+    (hin : s'.inflight = updFl k g s.inflight)
+    (hlog : ∀ j ∈ s'.ranLateC, (specOf cfg j).custom = false)
+    (hmono : s.cancelled = true → s'.cancelled = true)
+    (hg : (g f).lateC = true → (specOf cfg (g f).idx).custom = true →
+      (g f).pc ≠ .go ∧ ((g f).pc = .started → s'.cancelled = true)) : InvC cfg s' := by
+  obtain ⟨_, hu, _⟩ := entry_facts hI hf
+  constructor
+  · intro x hx hl hc
+    rw [hin] at hx
+    rcases mem_updFl hx with ⟨hx1, _⟩ | ⟨y, hy, hyk, rfl⟩
+    · obtain ⟨h1, h2⟩ := hC.entry x hx1 hl hc
+      exact ⟨h1, fun hp => hmono (h2 hp)⟩
+    · have := unique_entry hu hf hy hyk
+      subst this
+      exact hg hl hc
+  · exact hlog
+
+theorem invC_drop {cfg : Cfg} {s s' : St} {k : Nat} (hC : InvC cfg s)
+    (hin : s'.inflight = dropFl k s.inflight)
+    (hlog : ∀ j ∈ s'.ranLateC, (specOf cfg j).custom = false)
+    (hmono : s.cancelled = true → s'.cancelled = true) : InvC cfg s' := by
+  constructor
+  · intro x hx hl hc
+    rw [hin] at hx
+    obtain ⟨h1, h2⟩ := hC.entry x (mem_dropFl hx) hl hc
+    exact ⟨h1, fun hp => hmono (h2 hp)⟩
+  · exact hlog
+
+theorem invC_runOp {cfg : Cfg} {s : St} {f : Fl} (hI : Inv cfg s) (hC : InvC cfg s)
+    (hf : findFl f.idx s.inflight = some f)
+    (hlate : f.lateC = true → (specOf cfg f.idx).custom = false) : InvC cfg (runOp cfg s f) := by
+  have hlog : ∀ j ∈ (if f.lateC = true then ins f.idx s.ranLateC else s.ranLateC), (specOf cfg j).custom = false := by
+    intro j hj
+    split at hj
+    · rename_i hl
+      rcases mem_ins.mp hj with rfl | hj
+      · exact hlate hl
+      · exact hC.log j hj
+    · exact hC.log j hj
+  have hmono : s.cancelled = true → (s.cancelled || (specOf cfg f.idx).cancels) = true := by
+    intro h; simp [h]
+  unfold runOp
+  dsimp only
+  split
+  · exact invC_upd hI hC hf (fun g => { g with pc := .done true }) (setPc_eq _ _ _) hlog hmono
+      (by intro _ _; simp)
+  · exact invC_upd hI hC hf (fun g => { g with pc := .done false, wk := g.wk || (specOf cfg f.idx).custom })
+      rfl hlog hmono (by intro _ _; simp)
+  · exact invC_drop hC rfl hlog hmono
+
+theorem invC_step {cfg : Cfg} {s s' : St} {a : Act} (hI : Inv cfg s) (hC : InvC cfg s)
+    (hs : step cfg s a = some s') : InvC cfg s' := by
+  cases a with
+  | dLoad =>
+    simp only [step] at hs; split at hs
+    · cases hs; exact invC_frame hC rfl rfl id
+    · cases hs
+  | dClose =>
+    simp only [step] at hs; split at hs
+    · cases hs; exact invC_frame hC rfl rfl id
+    · cases hs
+  | dSendC =>
+    simp only [step] at hs; split at hs
+    · cases hs; exact invC_frame hC rfl rfl id
+    · cases hs
+  | dEnq =>
+    simp only [step] at hs; split at hs
+    · split at hs
+      · cases hs; exact invC_frame hC rfl rfl id
+      · cases hs; exact invC_frame hC rfl rfl id
+    · cases hs
+  | extCancel =>
+    simp only [step] at hs; split at hs
+    · cases hs; exact invC_frame hC rfl rfl (fun _ => rfl)
+    · cases hs
+  | monExit =>
+    simp only [step] at hs; split at hs
+    · cases hs; exact invC_frame hC rfl rfl id
+    · cases hs
+  | store k =>
+    simp only [step] at hs; split at hs
+    · cases hs
+    · cases hs
+      unfold release
+      split
+      · exact invC_frame hC rfl rfl (fun _ => rfl)
+      · exact invC_frame hC rfl rfl (fun _ => rfl)
+  | deq b =>
+    simp only [step] at hs
+    split at hs
+    · cases hs
+    · rename_i k q hq
+      have key : ∀ (iK iN : Nat) (fl : Fl), fl.lateC = false →
+          InvC cfg { s with queue := q, idleK := iK, idleN := iN, inflight := s.inflight ++ [fl] } := by
+        intro iK iN fl hfl
+        constructor
+        · intro x hx hl hc
+          rcases List.mem_append.mp hx with hx | hx
+          · exact hC.entry x hx hl hc
+          · simp at hx; subst hx; rw [hfl] at hl; cases hl
+        · exact hC.log
+      cases b
+      · simp only [Bool.false_eq_true, ↓reduceIte] at hs
+        split at hs
+        · cases hs; exact key _ _ _ rfl
+        · cases hs
+      · simp only [↓reduceIte] at hs
+        split at hs
+        · cases hs; exact key _ _ _ rfl
+        · cases hs
+  | w k =>
+    simp only [step] at hs
+    split at hs
+    · cases hs
+    · rename_i f hf
+      cases hs
+      have hk := (findFl_some hf).1
+      subst hk
+      have hmem := (findFl_some hf).2
+      unfold wstep
+      dsimp only
+      split
+      · -- got
+        exact invC_upd hI hC hf (fun g => { g with pc := .started, lateC := s.cancelled, lateF := decide (0 < s.failed) })
+          rfl hC.log id (by intro hl _; simp at hl ⊢; exact hl)
+      · -- started
+        rename_i hpc
+        split
+        · rename_i hcust
+          split
+          · exact invC_upd hI hC hf (fun g => { g with pc := .done false }) (setPc_eq _ _ _) hC.log id
+              (by intro _ _; simp)
+          · rename_i hnc
+            refine invC_upd hI hC hf (fun g => { g with pc := .go }) (setPc_eq _ _ _) hC.log id ?_
+            intro hl hc
+            exact absurd ((hC.entry f hmem hl hc).2 hpc) hnc
+        · rename_i hcust
+          exact invC_runOp hI hC hf (fun _ => by simpa using hcust)
+      · -- go
+        rename_i hpc
+        refine invC_runOp hI hC hf ?_
+        intro hl
+        cases hc : (specOf cfg f.idx).custom with
+        | false => rfl
+        | true => exact absurd hpc (hC.entry f hmem hl hc).1
+      · exact invC_upd hI hC hf (fun g => { g with pc := .dec _ }) (setPc_eq _ _ _) hC.log id (by intro _ _; simp)
+      · rename_i r hpc
+        cases r
+        · simp only [Bool.false_eq_true, ↓reduceIte]
+          exact invC_upd hI hC hf (fun g => { g with pc := .cnt false }) (setPc_eq _ _ _) hC.log id (by intro _ _; simp)
+        · simp only [↓reduceIte]
+          exact invC_upd hI hC hf (fun g => { g with pc := .cnt true }) (setPc_eq _ _ _) hC.log id (by intro _ _; simp)
+      · split
+        · exact invC_drop hC rfl hC.log id
+        · unfold release
+          split
+          · exact invC_drop hC rfl hC.log id
+          · exact invC_drop hC rfl hC.log id
+
+theorem invC_reachable {cfg : Cfg} {s : St} (h : Reachable cfg s) : InvC cfg s := by
+  induction h with
+  | init => exact invC_init cfg
+  | step hr hs ih => exact invC_step (inv_reachable hr) ih hs
+
 end OxiVerif.C22
